@@ -11,6 +11,17 @@ Spec -> code: MC_MeshEdits explores all bounded sequences of the public editing 
 data model (MeshEdits.tla, register / unregister discipline as in the code) on small seed meshes;
 every behaviour is replayed on the real functions and judged by TLC.
 
+Readings the oracle commits to (least demanding; the predicates are in Trace_Edits.tla / Mesh.tla):
+  * Consistent is demanded after every PUBLIC operation (a parser call, generate_mesh, Frame(), join_two_vertices,
+    do_t3_transition, a parser's clean-up block), not between its internal steps.
+  * An operation applied to a mesh that is already inconsistent is a rejected input: an inconsistency is reported
+    once, at the step that introduces it.
+  * A parser or generate_mesh raising on a legal input is C09.raised. Not legal (rejected, decided by TLC from logged
+    data): ne = 1 on a mesh with a closed-loop interface; a centre set with a vertical Voronoi ridge or coinciding
+    Voronoi vertices after the tessellation parser's rounding (C19's finding); generated contour lists that are
+    coarser than pixel chains (an interface without interior points that is not a side of an artefact triangle).
+  * Two mesh edges between the same pair of vertices do not violate the statement (they violate C11's fixed point).
+
 Python only builds, calls, projects and relays TLC's verdicts."""
 import copy
 import math
